@@ -1,6 +1,8 @@
 package props
 
 import (
+	"go/types"
+	"go/constant"
 	"fmt"
 
 	"golang.org/x/tools/go/ssa"
@@ -312,9 +314,17 @@ func nonZero(v ssa.Value, use ssa.Instruction, d int) (bool, string) {
 		if x.Op.String() == "+" {
 			for _, pair := range [][2]ssa.Value{{x.X, x.Y}, {x.Y, x.X}} {
 				if k, ok := pair[1].(*ssa.Const); ok && k.Value != nil && k.Value.ExactString() == "1" {
-					if rem, ok := pair[0].(*ssa.BinOp); ok && rem.Op.String() == "%" {
+					inner := pair[0]
+					if cv, ok := inner.(*ssa.Convert); ok {
+						// a conversion of the remainder (already < 65536) to an unsigned type of at least 16 bits keeps its value
+						if b, ok := cv.Type().Underlying().(*types.Basic); ok && b.Info()&types.IsUnsigned != 0 && b.Kind() != types.Uint8 {
+							inner = cv.X
+						}
+					}
+					if rem, ok := inner.(*ssa.BinOp); ok && rem.Op.String() == "%" {
 						if m, ok := rem.Y.(*ssa.Const); ok && m.Value != nil {
-							if s := m.Value.ExactString(); s == "65535" {
+							ub, isU := rem.X.Type().Underlying().(*types.Basic)
+							if mv, exact := constant.Int64Val(m.Value); exact && mv >= 1 && mv <= 65535 && isU && ub.Info()&types.IsUnsigned != 0 {
 								return true, "(x % 65535) + 1 lies in [1, 65535]"
 							}
 						}
